@@ -200,6 +200,13 @@ class Livelock(BaseException):
 
 
 LIVELOCK_N = 5000
+READ_CAP = 12 << 20     # no frame put on a wire by this harness exceeds 8 MiB + a little
+
+
+class Misread(RuntimeError):
+    """raised by the shim into a _recv that asks for more bytes than any
+    message of this harness has: a length header was mis-read (decided by
+    size, so that the receive fails at once instead of blocking)"""
 
 
 class FdPlan:
@@ -277,6 +284,9 @@ class Shim:
 
     def read(self, fd, n):
         self.calls_r += 1
+        if n > READ_CAP:
+            raise Misread('read of %d bytes requested; no message here is longer than %d'
+                          % (n, 8 << 20))
         p = self.plans.get(fd)
         if p is None:
             return _os_read(fd, n)
